@@ -83,10 +83,20 @@ class NfdRegister(PrefixRegisterer):
                     break
                 await aio.sleep(0.001)
             try:
-                await self.app.express(
+                _, reply, _ = await self.app.express(
                     nfd_mgmt.make_command_v2('rib', 'unregister', self.app.face, name=name),
                     app_param=b'', signer=sec.DigestSha256Signer(for_interest=True),
                     validator=pass_all, lifetime=1000)
+                try:
+                    ret = nfd_mgmt.parse_response(reply)
+                except (enc.DecodeError, ValueError, IndexError, TypeError, struct.error):
+                    logging.getLogger(__name__).error('Unregistration for %s failed: malformed response',
+                                                      enc.Name.to_str(name))
+                    return False
+                if ret['status_code'] != 200:
+                    logging.getLogger(__name__).error('Unregistration for %s failed: %s %s',
+                                                      enc.Name.to_str(name), ret["status_code"], ret["status_text"])
+                    return False
                 return True
             except (types.InterestNack, types.InterestTimeout, types.InterestCanceled, types.ValidationFailure):
                 return False
